@@ -147,7 +147,77 @@ pub fn c01_histories(out: &str, thorough: bool, seed: u64) {
             }
         }
     }
-    let res = json!({"histories": histories, "scored_states_checked": scored,
+    // two occupied sites per cell (library API: initialise with several Wyckoff sites)
+    let mut two_site_histories = 0usize;
+    for k in 0..(if thorough { 60 } else { 12 }) {
+        use packing::traits::State;
+        use packing::wallpaper::{Wallpaper, WyckoffSite};
+        use packing::{LineShape, MolecularShape2, PackedState};
+        let gname = GROUPS[k % GROUPS.len()];
+        let g = suites::group(gname);
+        let site = match WyckoffSite::new(&g) {
+            Ok(s) => s,
+            Err(_) => continue,
+        };
+        let fam = family_of(gname);
+        let idx = rng.gen_range(0, 100);
+        let user = Req { steps, inner: 200, kt_start: 0.1, kt_finish: Some(0.0005), kt_ratio: None,
+                         max_step: *[0.05, 0.3].choose(&mut rng).unwrap(), convergence: None, seed: idx };
+        let mut reqs = suites::cli_chain(&user, idx);
+        reqs[0].steps = 400;
+        let mut runs = vec![];
+        let desc = format!("#{} two-site history {}", k, gname);
+        // the second site starts half a cell away from the first
+        let (base, ok) = if k % 2 == 0 {
+            let st = PackedState::initialise(LineShape::polygon(4).unwrap(), Wallpaper::new(&g), &[site.clone(), site.clone()]);
+            let mut j = serde_json::to_value(&st).unwrap();
+            j["occupied_sites"][1]["x"] = json!(j["occupied_sites"][0]["x"].as_f64().unwrap() + 0.5);
+            j["occupied_sites"][1]["angle"] = json!(0.4);
+            match serde_json::from_value::<PackedState<LineShape>>(j.clone()) {
+                Ok(s) if s.score().is_some() => {
+                    suites::chain(&desc, gname, s, &reqs, &mut runs);
+                    (j, true)
+                }
+                _ => (j, false),
+            }
+        } else {
+            let st = PackedState::initialise(MolecularShape2::from_trimer(0.637556, 120., 1.), Wallpaper::new(&g), &[site.clone(), site.clone()]);
+            let mut j = serde_json::to_value(&st).unwrap();
+            j["occupied_sites"][1]["x"] = json!(j["occupied_sites"][0]["x"].as_f64().unwrap() + 0.5);
+            match serde_json::from_value::<PackedState<MolecularShape2>>(j.clone()) {
+                Ok(s) if s.score().is_some() => {
+                    suites::chain(&desc, gname, s, &reqs, &mut runs);
+                    (j, true)
+                }
+                _ => (j, false),
+            }
+        };
+        if !ok {
+            continue;
+        }
+        two_site_histories += 1;
+        histories += 1;
+        for run in runs.iter() {
+            for r in run.raw.iter() {
+                if let Raw::Score(vec, s) = r {
+                    if s.is_none() {
+                        rejected_overlap += 1;
+                        continue;
+                    }
+                    scored += 1;
+                    let j = patch(&base, fam, vec);
+                    match lattice_verdict(&j, gname) {
+                        Some((Verdict::Overlap(depth), who)) => failures.push(json!({"what": format!("scored although images overlap ({})", who),
+                            "state": {"run": run.desc, "group": gname, "depth": depth, "score": s, "state_json": j}})),
+                        Some((Verdict::Touch, _)) => touch += 1,
+                        Some((Verdict::Apart, _)) => {}
+                        None => oracle_skipped += 1,
+                    }
+                }
+            }
+        }
+    }
+    let res = json!({"histories": histories, "two_site_histories": two_site_histories, "scored_states_checked": scored,
         "proposals_rejected_as_overlapping": rejected_overlap, "touching_not_asserted": touch,
         "oracle_skipped": oracle_skipped, "sample_histories": samples,
         "failures_total": failures.len(),
